@@ -11,6 +11,11 @@ from .common import COMPONENTS, crash_case, shrink_scenario_candidates
 
 ID = "C11"
 LEVEL = "fault_enumeration"
+COMPONENTS = {
+    "real": COMPONENTS["real"] + ["ZukoFlow (quick + thorough) and FlowJax (thorough): proposal saved into the run file by sample_posterior and reloaded by resume_from_file"],
+    "stub": COMPONENTS["stub"],
+    "not_run": ["blackjax", "real minipcn / orng / emcee"],
+}
 RULE = (
     "case = one swarm-drawn SMC scenario (target x dims x schedule options x cadence x n_final_samples x "
     "preconditioning x checkpoint mode x rng route); the fault-free reference run is crashed at EVERY "
@@ -32,12 +37,44 @@ WANT = ("c11",)
 
 def gen_cases(seed, tier):
     n = 64 if tier == "quick" else 1600
-    return [crash_case(ID, seed, i, tier=tier) for i in range(n)]
+    out = [crash_case(ID, seed, i, tier=tier) for i in range(n)]
+    # the same loop with the REAL proposals (flow saved into the run file by sample_posterior, reloaded by resume_from_file)
+    real = [("zuko", "torch"), ("zuko", "numpy")] if tier == "quick" else [("zuko", "torch"), ("zuko", "numpy"), ("zuko", "jax"), ("flowjax", "jax"), ("flowjax", "numpy")] * 3
+    for j, (backend, xp) in enumerate(real):
+        out.insert(j, crash_case(ID, seed, 70000 + j, tier=tier, real_flow=backend, xp=xp))
+    return out
+
+
+def real_flow_scenario(case):
+    from ..env import make_target
+    from ..runner import default_scenario
+    from ..swarm import pick
+    from .c20 import FLOWS
+
+    rng = rng_from(case["scenario_seed"])
+    t = make_target(pick(rng, ["gauss_box", "hug"]), 2, rng)
+    fl, fit = FLOWS[case["real_flow"]]
+    sk = {"sampler_kwargs": {"n_steps": 1}, "target_efficiency": float(rng.uniform(0.6, 0.85))}
+    if rng.integers(2):
+        sk["n_final_samples"] = 30
+    if rng.integers(3) == 0:
+        sk["max_n_steps"] = 8
+    scn = default_scenario(t, sampler="smc", sample_kwargs=sk, n_samples=20, xp=case["xp"], fit_kwargs=dict(fit),
+                           train={"n": 200, "shift": float(rng.uniform(1.5, 2.5)), "widen": 1.2},
+                           preconditioning=pick(rng, [None, "none", "default"]),
+                           checkpoint={"mode": pick(rng, ["path", "auto"]), "every": int(pick(rng, [1, 2]))}, rng_route="top",
+                           seeds={"rng": int(rng.integers(1 << 30)), "entropy": int(rng.integers(1 << 30)), "train": int(rng.integers(1 << 30)), "torch": int(rng.integers(1 << 30))})
+    scn["flow"] = dict(fl)
+    scn["_schedule_mode"] = "adaptive"
+    scn["_precond"] = scn["preconditioning"]
+    return scn
 
 
 def scenario_of(case):
     if "scenario" in case:
         return case["scenario"]
+    if case.get("real_flow"):
+        return real_flow_scenario(case)
     quick = case.get("tier") == "quick"
     return draw_smc_scenario(
         case["scenario_seed"],
@@ -57,7 +94,7 @@ def run_case(case, workdir):
         scn, workdir, want=WANT, rng=rng,
         routes=case.get("routes") or ROUTES,
         max_states=case.get("max_states", 4 if quick else None),
-        max_crash_points=case.get("max_crash_points", 60 if quick else None),
+        max_crash_points=case.get("max_crash_points", (12 if case.get("real_flow") else 60) if quick else (40 if case.get("real_flow") else None)),
         double_crash=case.get("double_crash", 0 if quick else 1),
     )
     return finish(case, scn, res)
@@ -74,6 +111,9 @@ def finish(case, scn, res):
         "distinct_durable_states": res["states"],
         "resumes": res["resumes"],
     }
+    if res["nontrivial_keys"] and scn["flow"]["backend"] != "simflow":
+        res["nontrivial_keys"] = [k + [scn["flow"]["backend"]] for k in res["nontrivial_keys"]]
+        res["probes"]["real_flow_resumes:" + scn["flow"]["backend"]] = res["resumes"]
     return {
         "violations": vs,
         "aborted": res["aborted"],
